@@ -46,3 +46,20 @@ Record finfo := {
 
 (* the value of an option variable, whatever its type (function / pointer values: nil or "some value") *)
 Inductive fval := FB (b : bool) | FS (x : str) | FZ (z : Z) | FT (t : option nat).
+
+(* ---- thin wrappers (Gen/Wrappers_gen.v) ---- *)
+Inductive wexpr :=
+| EVar (x : string)                       (* parameter or local *)
+| EGlobal (x : string)                    (* package-level variable *)
+| ESpread (e : wexpr)                     (* xs... *)
+| ELit (s : string)                       (* string / integer constant *)
+| EBool (b : bool)
+| ENil
+| EAddr (e : wexpr)                       (* &e *)
+| EConv (t : string) (e : wexpr)          (* T(e) *)
+| ECall (f : string) (args : list wexpr)  (* f(args); a method's receiver is the first argument *)
+| EBad.
+Inductive wstmt :=
+| SAssign (lhs : list string) (e : wexpr)       (* lhs := e  /  lhs = e  /  e *)
+| SIfErr (v : string) (rets : list wexpr)       (* if v != nil { return rets } *)
+| SRet (rets : list wexpr).
